@@ -333,6 +333,11 @@ func (r *RolloutReconciler) handleNormalRolling(c *RolloutContext) error {
 	}
 	// in case user modifies it with inappropriate value
 	util.CheckNextBatchIndexWithCorrect(c.Rollout)
+	// c.NewStatus was copied from the Rollout before the correction, and it is the one the
+	// release managers read (doCanaryJump indexes the steps with it)
+	if newSub, sub := c.NewStatus.GetSubStatus(), c.Rollout.Status.GetSubStatus(); newSub != nil && sub != nil {
+		newSub.NextStepIndex = sub.NextStepIndex
+	}
 
 	releaseManager, err := r.getReleaseManager(c.Rollout)
 	if err != nil {
